@@ -169,8 +169,21 @@ def two_body_xml(rng, gravity=(0.0, 0.0, -9.81), elasticity=True):
   return '\n'.join(out)
 
 
-def free_model(rng, **kw):
-  opts = dict(roots='free', limits=0.5, actuators=(0, 3), n_links=(1, 5))
+def brax_custom(rng, force=False):
+  """brax custom numerics that make the joint-frame forces generic: linear/angular constraint
+  damping (the positional `_damp` force is zero without it on hinge-only models) and a non-trivial
+  `spring_mass_scale` (the pipelines then integrate with `mass ** (1 - scale)`)"""
+  c = {}
+  if force or rng.random() < 0.5:
+    c['constraint_vel_damping'] = float(np.round(rng.uniform(1.0, 30.0), 2))
+    c['constraint_ang_damping'] = float(np.round(rng.uniform(0.1, 2.0), 2))
+  if rng.random() < 0.4:
+    c['spring_mass_scale'] = float(rng.choice([0.3, 0.7]))
+  return c or None
+
+
+def free_model(rng, force_custom=False, **kw):
+  opts = dict(roots='free', limits=0.5, actuators=(0, 3), n_links=(1, 5), custom=brax_custom(rng, force_custom))
   opts.update(kw)
   return modelgen.gen_model(rng, **opts)
 
@@ -465,8 +478,12 @@ def float_cases(ctx, n_models, n_scenes, hist_len, n_hist_models, seed_offset=0,
 
   specs = []
   for mi in range(n_models):
-    xml, meta = free_model(rng) if mi % 4 != 3 else modelgen.gen_model(
-        rng, roots='mixed', limits=0.5, actuators=(0, 3), n_links=(1, 5))
+    if mi % 4 != 3:
+      # every other free-rooted model has at least two links and constraint damping
+      xml, meta = free_model(rng, force_custom=(mi % 2 == 0), **(dict(n_links=(2, 5)) if mi % 2 == 0 else {}))
+    else:
+      xml, meta = modelgen.gen_model(rng, roots='mixed', limits=0.5, actuators=(0, 3), n_links=(1, 5),
+                                     custom=brax_custom(rng))
     specs.append(('model', xml, meta['link_types'], all(p != -1 or t == 'f' for p, t in zip(meta['parents'], meta['link_types']))))
   for si in range(n_scenes):
     specs.append(('scene', two_body_xml(rng, gravity=(0, 0, -9.81) if si % 2 else (0.3, -0.2, 0.5)), 'ff', True))
